@@ -939,6 +939,16 @@ def o_C19(sc):
             return 'C19 scalar edge %s gives interval [%r,%r] when loading' % (sc['te'], b.t_start, b.t_end)
         if list(b.spikes) != sorted(a.spikes):
             return 'C19 scalar edge: precision 17 load differs'
+    # a hand-written file: one-character data lines, an empty line, unsorted numbers
+    try:
+        open(path, 'w').write('5\n\n3 1 2\n7\n')      # every line newline-terminated, as `save` writes them
+        R4 = spk.load_spike_trains_from_txt(path, float(sc['te']), ignore_empty_lines=False)
+    finally:
+        if os.path.exists(path):
+            os.remove(path)
+    got4 = [list(t.spikes) for t in R4]
+    if got4 != [[5.0], [], [1.0, 2.0, 3.0], [7.0]]:
+        return 'C19 hand-written file with lines "5", "", "3 1 2", "7" loads as %s' % got4
     return o_C19b(sc)
 
 
